@@ -29,7 +29,8 @@ EXHAUSTIVE_WHOLE = False
 
 CHUNK = 1024
 SIZES = [0, 1, CHUNK - 1, CHUNK, CHUNK + 1, 2 * CHUNK - 1, 2 * CHUNK, 2 * CHUNK + 1, 3 * CHUNK + 7]
-ALPHABET = ['INFO', 'OKAY', 'DATA=', 'DATA!', 'FAIL', 'JUNK']
+ALPHABET = ['INFO', 'OKAY', 'DATA=', 'DATA!', 'DATA?', 'FAIL', 'JUNK']
+MALFORMED_SIZES = ['12', '', 'zzzzzzzz', '0000010', '-0000001']      # what a DATA packet carries instead of 8 hex digits
 COMMANDS = [['getvar', 'version'], ['oem', 'poweroff now'], ['erase', 'userdata'], ['flash', 'boot'], ['reboot', None],
             ['reboot', 'recovery'], ['reboot_bootloader'], ['continue_']]
 
@@ -55,6 +56,8 @@ def packets_of(seq, size, texts=None):
       out.append('DATA%08x' % size)
     elif s == 'DATA!':
       out.append('DATA%08x' % (size + 1))
+    elif s == 'DATA?':
+      out.append('DATA' + MALFORMED_SIZES[(i + size) % len(MALFORMED_SIZES)])
     elif s == 'FAIL':
       out.append('FAIL' + ('because-%d' % i if t is None else t))
     else:
@@ -93,7 +96,9 @@ def reference(kind, seq, size, texts=None):
   res = accept('DATA')
   if res[0] != 'ok':
     return dict(result=res, infos=infos, image_sent=False)
-  if int(res[1][:8], 16) != size:
+  digits = res[1][:8]
+  if len(digits) != 8 or any(c not in '0123456789abcdefABCDEF' for c in digits) or int(digits, 16) != size:
+    # not "DATA with exactly that size": a transfer error, and no image byte goes out
     return dict(result=('exc', 'FastbootTransferError', ''), infos=infos, image_sent=False)
   res = accept('OKAY')
   return dict(result=res, infos=infos, image_sent=True)
@@ -250,7 +255,7 @@ def exhaustive_cases(maxlen):
         yield {'cmd': cmd, 'seq': list(seq), 'progress': 'none'}
         if n <= 2:
           yield {'cmd': cmd, 'seq': list(seq), 'progress': 'none', 'via': 'device'}
-        if n and 'DATA=' not in seq and 'DATA!' not in seq:
+        if n and 'DATA=' not in seq and 'DATA!' not in seq and 'DATA?' not in seq:
           # the same reply sequence with device-chosen texts, rotated through TEXTS
           rot = (ci + 3 * n + sum(map(len, seq))) % len(TEXTS)
           yield {'cmd': cmd, 'seq': list(seq), 'progress': 'none', 'texts': [TEXTS[(rot + j) % len(TEXTS)] for j in range(n)]}
